@@ -98,10 +98,31 @@ def run (cfg : Cfg) : Nat → List Item → St → Option St
       if skipped st f then run cfg n rest st
       else run cfg n ((bodyOf cfg f).map (Item.dir (dirOf cfg f)) ++ rest) (enterSt cfg st f)
 
-/-- the work list of an invocation: the `-include`d inputs and the main file in command-line
-    order, then (bindgen passes unsaved files after the real ones) the in-memory contents -/
+/-- an input of the invocation: a header on disk, or in-memory `header_contents` -/
+inductive Top where
+  | file (f : Nat)
+  | virt (body : List Dir)
+
+/-- `Builder::generate` / `Bindings::generate` build the clang command line
+    `-include h₁ … -include hₙ₋₁  hₙ  -include v₁ … -include vₘ` (all input headers but the last
+    become `-include`; the last one is the main file; in-memory contents follow as `-include`s —
+    or, when there is no header on disk, the first content is the main file).  clang processes every
+    `-include` in order *before* the main file, whatever its position on the command line. -/
+def commandLineOrder (inputs : List Nat) (virt : List (List Dir)) : List Top :=
+  match inputs.getLast? with
+  | none =>
+    match virt with
+    | [] => []
+    | v0 :: vs => vs.map Top.virt ++ [Top.virt v0]
+  | some main => inputs.dropLast.map Top.file ++ virt.map Top.virt ++ [Top.file main]
+
+def topItems (cwd : Nat) : Top → List Item
+  | .file f => [Item.input f]
+  | .virt b => b.map (Item.dir cwd)
+
+/-- the work list of an invocation (in-memory contents live in the current directory) -/
 def initial (cwd : Nat) (inputs : List Nat) (virt : List (List Dir)) : List Item :=
-  inputs.map Item.input ++ (virt.map (fun b => b.map (Item.dir cwd))).flatten
+  ((commandLineOrder inputs virt).map (topItems cwd)).flatten
 
 def filesRead (st : St) : List Nat := st.entered
 def depsRecorded (inputs : List Nat) (st : St) : List Nat := inputs ++ st.reported
